@@ -269,7 +269,7 @@ macro_rules! for_ns {
 }
 
 pub fn run(ctx: &mut Ctx) {
-    for_ns!([U0, U1, U2, U3, U4, U5, U6, U7, U8, U16, U17, U33, U64, U100], N => {
+    for_ns!([U0, U1, U2, U3, U4, U5, U6, U7, U8, U16, U17, U33, U64, U100, U128, U1000], N => {
         let n = N::USIZE;
         macro_rules! c {
             ($name:expr, $types:expr, $f:expr) => {
